@@ -31,19 +31,20 @@ type LoadOpts struct {
 
 // World is the loaded, type-checked, SSA-built program.
 type World struct {
-	Opts     LoadOpts
-	Dir      string
-	Fset     *token.FileSet
-	Pkgs     []*packages.Package // initial packages (./...)
-	All      map[string]*packages.Package
-	Prog     *ssa.Program
-	SSAPkgs  map[string]*ssa.Package  // by import path
-	renamed  map[string]*ssa.Function // old key -> renamed function (ResolveRenamedFuncs)
-	RepoFns  []*ssa.Function          // all source functions (incl. anonymous) of repo packages, sorted
-	LoadWall time.Duration
-	cg       *CallGraph
-	fv       *fvIndex
-	unres    []string
+	Opts         LoadOpts
+	Dir          string
+	Fset         *token.FileSet
+	Pkgs         []*packages.Package // initial packages (./...)
+	All          map[string]*packages.Package
+	Prog         *ssa.Program
+	SSAPkgs      map[string]*ssa.Package  // by import path
+	renamed      map[string]*ssa.Function // old key -> renamed function (ResolveRenamedFuncs)
+	renamedTypes map[string]*types.Named  // old type key -> renamed struct type (ResolveRenamedTypes)
+	RepoFns      []*ssa.Function          // all source functions (incl. anonymous) of repo packages, sorted
+	LoadWall     time.Duration
+	cg           *CallGraph
+	fv           *fvIndex
+	unres        []string
 }
 
 // RepoDir returns the repository root used by default.
@@ -191,6 +192,11 @@ func (w *World) Func(rel, recv, name string) *ssa.Function {
 	}
 	t := p.Type(recv)
 	if t == nil {
+		if n := w.renamedTypes[shortPkg(p.Pkg.Path())+"."+recv]; n != nil {
+			t = p.Type(n.Obj().Name()) // the receiver type was renamed, recognised by its fields
+		}
+	}
+	if t == nil {
 		if f := w.uniqueByName(p, name); f != nil {
 			return f // the receiver type was renamed
 		}
@@ -273,6 +279,11 @@ func (w *World) NamedType(rel, name string) *types.Named {
 		return nil
 	}
 	t := p.Type(name)
+	if t == nil {
+		if n := w.renamedTypes[shortPkg(p.Pkg.Path())+"."+name]; n != nil {
+			t = p.Type(n.Obj().Name())
+		}
+	}
 	if t == nil {
 		w.unres = append(w.unres, fmt.Sprintf("type %s.%s", rel, name))
 		return nil
